@@ -364,6 +364,13 @@ func c14Copies(c *Ctx, a *sketchAnchors) {
 						}
 					}
 				}
+				// slices.Clone / maps.Clone of the receiver's SAME field: a fresh copy with the receiver's elements
+				if cv := stripVers(stripConv(v)); cv.Op == "call" && (cv.Sym == "slices.Clone" || cv.Sym == "maps.Clone") && len(cv.Args) == 1 {
+					if !termIsRecvPath(stripVers(cv.Args[0]), fld.path) {
+						ok = false
+						found = "filled with the clone of something else: " + v.Key()
+					}
+				}
 				// a field filled with x.Copy() takes it from the receiver's SAME field (the positive store's copy is
 				// the copy's positive store)
 				if cv := stripConv(v); isMethodCall(cv, "Copy") && len(cv.Args) >= 1 {
@@ -422,6 +429,12 @@ func c14Copies(c *Ctx, a *sketchAnchors) {
 			tcm := newTermCtx(c.P)
 			for _, b := range f.Blocks {
 				for _, in := range b.Instrs {
+					// maps.Clone(receiver's same map): verbatim by definition
+					if call, isCall := in.(*ssa.Call); isCall {
+						if cal := call.Common().StaticCallee(); cal != nil && libName(cal) == "maps.Clone" && len(call.Common().Args) == 1 && termIsRecvPath(stripVers(tcm.Of(call.Common().Args[0])), fld.path) {
+							verbatim = true
+						}
+					}
 					mu, ok := in.(*ssa.MapUpdate)
 					if !ok {
 						continue
